@@ -582,13 +582,15 @@ namespace c14
             {
                 // what the compiled code contains: the width of the counter, the number of slots of _data
                 int w = width();
-                size_t slots = N ? sizeof(Vec::_data) / sizeof(typename std::remove_extent<decltype(Vec::_data)>::type) : 0;
+                size_t slots = 0;
+                if constexpr (N > 0) slots = sizeof(Vec::_data) / sizeof(typename std::remove_extent<decltype(Vec::_data)>::type);
                 o.result = "w=" + std::to_string(w) + " slots=" + std::to_string(slots);
                 o.tag(("w" + std::to_string(w)).c_str());
                 if (!counter_fits(w, N))
                     o.fail("m_size has " + std::to_string(w) + " bits: it cannot hold the sizes 0.." + std::to_string(N));
                 if (slots != N) o.fail("_data has " + std::to_string(slots) + " slots, N=" + std::to_string(N));
-                if (sizeof(typename std::remove_extent<decltype(Vec::_data)>::type) < sizeof(T)) o.fail("a slot is smaller than T");
+                if constexpr (N > 0)
+                    if (sizeof(typename std::remove_extent<decltype(Vec::_data)>::type) < sizeof(T)) o.fail("a slot is smaller than T");
                 return;
             }
             // `thr k <op>`: the (k+1)-th element construction inside <op> throws
@@ -1345,6 +1347,34 @@ namespace c14
         }
     };
 
+    // ---------------------------------------------------------------- before main()
+    // A few operations run from the constructor of a static object with
+    // init_priority(101) (before the harness's own statics): the classes must
+    // not depend on anything that is initialised later.  The text is stored in
+    // a zero-initialised buffer and reported by the op `premain`.
+    template <class Twin> void premain_probe(char *out, size_t cap)
+    {
+        typename Twin::template vec<int, 3> v;
+        for (int i = 1; i <= 4; i++) v.push_back(i);
+        typename Twin::template vec<int, 3> w(v);
+        v.resize(1);
+        typename Twin::template str<3> s("abcdef");
+        s.push_back('x');
+        std::string t;
+        auto showv = [&](auto &x) {
+            t += std::to_string(x.size()) + "/" + std::to_string(x.room()) + "[";
+            for (size_t i = 0; i < x.size() && i < 3; i++) t += (i ? "," : "") + std::to_string(x[i]);
+            t += "]";
+        };
+        showv(v);
+        t += " ";
+        showv(w);
+        t += " " + std::to_string(s.size()) + ":" + std::string(s.c_str());
+        snprintf(out, cap, "%s", t.c_str());
+    }
+    const char *premain_c();
+    const char *premain_p();
+
 #define C14_V(n) if (N == n) return trk ? (IMachine *)new VMachine<Twin, Tracked, n>(K, canary) : (IMachine *)new VMachine<Twin, int, n>(K, canary);
 #define C14_VT(n) if (N == n && trk) return new VMachine<Twin, Tracked, n>(K, canary);
 #define C14_VI(n) if (N == n && !trk) return new VMachine<Twin, int, n>(K, canary);
@@ -1358,17 +1388,17 @@ namespace c14
     template <class Twin> IMachine *make_small_trk(bool str, bool trk, size_t N, int K, bool canary)
     {
         if (str) return nullptr;
-        C14_VT(1) C14_VT(2) C14_VT(3) C14_VT(8)
+        C14_VT(0) C14_VT(1) C14_VT(2) C14_VT(3) C14_VT(8)
         return nullptr;
     }
     template <class Twin> IMachine *make_small_rest(bool str, bool trk, size_t N, int K, bool canary)
     {
         if (str)
         {
-            C14_S(1) C14_S(2) C14_S(3) C14_S(8)
+            C14_S(0) C14_S(1) C14_S(2) C14_S(3) C14_S(8)
             return nullptr;
         }
-        C14_VI(1) C14_VI(2) C14_VI(3) C14_VI(8)
+        C14_VI(0) C14_VI(1) C14_VI(2) C14_VI(3) C14_VI(8)
         return nullptr;
     }
     template <class Twin> IMachine *make_big_trk(bool str, bool trk, size_t N, int K, bool canary)
@@ -1381,7 +1411,7 @@ namespace c14
     {
         if (str)
         {
-            C14_S(127) C14_S(128) C14_S(255) C14_S(256) C14_S(257) C14_S(65535) C14_S(65536) C14_S(65537)
+            C14_S(127) C14_S(128) C14_S(255) C14_S(256) C14_S(257) C14_S(65535) C14_S(65536) C14_S(65537) C14_S(307200)
             return nullptr;
         }
         C14_VI(65535) C14_VI(65536) C14_VI(65537)
